@@ -324,6 +324,18 @@ fn run_adf(seed: u64, budget: usize) -> ! {
                 F::And(a, b) => F::And(Box::new(swp(a)), Box::new(swp(b))), F::Or(a, b) => F::Or(Box::new(swp(a)), Box::new(swp(b))), F::Imp(a, b) => F::Imp(Box::new(swp(a)), Box::new(swp(b))),
                 F::Xor(a, b) => F::Xor(Box::new(swp(a)), Box::new(swp(b))), F::Iff(a, b) => F::Iff(Box::new(swp(a)), Box::new(swp(b))) } }
             for i in (1..m).step_by(2) { gs[i] = swp(&gs[i - 1]); }
+            // half of these rounds: mirrored pairs hanging on a two-cycle (many stable models, ties in every counting criterion)
+            if rng.below(2) == 0 {
+                let (pp, qq) = (m - 2, m - 1);
+                gs[pp] = if rng.below(3) == 0 { F::Atom(qq) } else { F::Not(Box::new(F::Atom(qq))) };
+                gs[qq] = if rng.below(3) == 0 { F::Atom(pp) } else { F::Not(Box::new(F::Atom(pp))) };
+                for pr in 0..(m - 2) / 2 {
+                    let (a, a2) = (2 * pr, 2 * pr + 1);
+                    let mk = |o: usize, x: usize, y: usize| -> F { let (x, y) = (Box::new(F::Atom(x)), Box::new(F::Atom(y))); match o { 0 => F::Iff(x, y), 1 => F::Xor(x, y), 2 => F::And(x, y), 3 => F::Or(x, y), _ => F::Imp(x, y) } };
+                    let o = rng.below(5);
+                    gs[a] = mk(o, a2, pp); gs[a2] = mk(o, a, pp);
+                }
+            }
             let mut t2 = String::new();
             for i in 0..m { t2.push_str(&format!("s({}).", name(i))); }
             for i in 0..m { t2.push_str(&format!("ac({},{}).", name(i), show(&gs[i]))); }
